@@ -210,7 +210,7 @@ def rule_panic_inv(fx, col):
             cands = []
             for (fn_sfx, what_sub, mac, need, rule, reason) in DISCHARGES:
                 w = what if kind == 'call' else ('assert:' + what)
-                if need and what_sub in w and mac == macro and mac and need <= toks:
+                if need and what_sub in w and mac == macro and need <= toks:
                     cands.append((rule, reason + ' (same assertion as in %s)' % fn_sfx))
                 # `debug_assert!(a == b)` for `debug_assert_eq!(a, b)` (the comparison moved into a predicate helper)
                 elif need and what_sub == 'assert_failed' and mac in ('debug_assert_eq', 'assert_eq') and macro == mac[:-3] and kind == 'call' \
@@ -434,16 +434,34 @@ def rule_with_take(fx, col):
     col.add('WITH-TAKE', 'with|cell created Some', cell is not None, 'Cell::new(Some(f)) found: %s' % (cell is not None))
     # two closures capture a reference to it; each is handed to a different std callback
     clos = U.closures_built(lib, b)
-    col.add('WITH-TAKE', 'with|two closures', len(clos) == 2, 'closures built: %s' % [c.fname for _, _, c in clos])
     sinks = set()
+    tw = []
     for bb, t in b.calls():
         nm = U.callee_name(t)
         if nm in ('try_with', 'unwrap_or_else'):
             sinks.add(nm)
-    col.add('WITH-TAKE', 'with|exclusive callbacks', sinks == {'try_with', 'unwrap_or_else'},
-            'the body closure goes to LocalKey::try_with and the fallback to Result::unwrap_or_else on its result (mutually exclusive, each FnOnce): %s' % sorted(sinks))
+        if nm == 'try_with':
+            tw.append(bb)
+    is_take = lambda t: U.callee_name(t) == 'take' and 'cell::Cell' in t['callee'].get('path', '')
+    own = [(bb, t) for bb, t in b.calls(include_cleanup=False) if is_take(t)]
+    if len(clos) == 2 and not own:
+        # the shape of the library: two closures, each handed to a different std callback
+        col.ok('WITH-TAKE', 'with|two closures', 'closures built: %s' % [c.fname for _, _, c in clos])
+        col.add('WITH-TAKE', 'with|exclusive callbacks', sinks == {'try_with', 'unwrap_or_else'},
+                'the body closure goes to LocalKey::try_with and the fallback to Result::unwrap_or_else on its result (mutually exclusive, each FnOnce): %s' % sorted(sinks))
+    else:
+        # the fallback written as a `match` on what try_with returned: the FnOnce is taken in the closure handed to try_with and,
+        # in this body, only where try_with answered Err (LocalKey::try_with answers Err without having run the closure)
+        col.add('WITH-TAKE', 'with|two closures', len(clos) >= 1 and len(tw) == 1, 'closures built: %s; try_with calls: %d' % ([c.fname for _, _, c in clos], len(tw)))
+        ok = bool(own) and len(tw) == 1
+        for bb, t in own:
+            in_loop = any(bb in bl for h, bl, tl in b.loops())
+            on_err = any(f[0] == 'variant' and f[2] == 1 and ('call', tw[0]) in b.origins(f[1]) for f in U.dominating_facts(b, bb)) if tw else False
+            ok = ok and on_err and not in_loop
+        col.add('WITH-TAKE', 'with|exclusive callbacks', ok,
+                'the FnOnce is taken in this body only on the Err outcome of LocalKey::try_with (the closure did not run), once: %s' % [b.loc(bb) for bb, _ in own])
     for _, _, cb in clos:
-        takes = [(bb, t) for bb, t in cb.calls() if U.callee_name(t) == 'take' and 'cell::Cell' in t['callee'].get('path', '')]
+        takes = [(bb, t) for bb, t in cb.calls() if is_take(t)]
         in_loop = any(any(bb in bl for h, bl, tl in cb.loops()) for bb, _ in takes)
         col.add('WITH-TAKE', '%s|takes once' % cb.fname, len(takes) == 1 and not in_loop, '%d take() call(s), in loop: %s' % (len(takes), in_loop))
 
